@@ -11,6 +11,7 @@ import optrun
 from optmodel import TRUTHY, FALSY
 
 PROP = "C04"
+CONCURRENT = "parse"   # extra phase: lib/mtindep.py (parsers used by several threads at once)
 LEVEL = "exploration"
 RULE = ("hostile argument vectors (enumerated malformed tokens at every position, bundles / names / "
         "values / dash runs of 1 .. 131071 bytes, random byte strings over a dash-heavy alphabet) and "
